@@ -25,6 +25,14 @@ findings at every run (see findings/C07.md); one of them is a fault injection (t
 analytical Hessian of the final evaluation is made non-finite). The thorough tier also
 runs 13 files of the repository's own test-suite with the model-independent part of the
 post-condition attached to BIOGEME.estimate/quick_estimate (oracle/c07_pytest_plugin.py).
+
+Histories: a second case family takes ONE BIOGEME object through a seeded sequence of 2-4
+estimations (estimate / quick_estimate, algorithm and max_iterations changed through the
+public parameters in between, change_init_values in between, bootstrap with 1-2 samples)
+and applies the same post-conditions after EVERY estimation. "The initial log likelihood"
+is judged against the likelihood of the point the run really started from = the vector
+BIOGEME handed to the algorithm (recorded by the table hook); on a fresh object and after
+change_init_values that vector must also be the declared one.
 """
 from __future__ import annotations
 
@@ -45,7 +53,10 @@ RULE = (
     'finite maximum (KKT residual <= 1e-10 of the gradient scale, Hessian condition < 1e7) and the estimation returned a '
     'results object; distinct = hash(problem, bounds, start, options, algorithm, entry point). 3 hand-made directed cases '
     '(finding reproductions, one with fault injection) are added at every run; thorough adds every estimate()/quick_estimate() '
-    'call made by 13 files of the repository\'s own tests, judged by the model-independent contracts (distinct = test, call index)'
+    'call made by 13 files of the repository\'s own tests, judged by the model-independent contracts (distinct = test, call index). '
+    'History family: one BIOGEME object through a seeded sequence of 2-4 estimations (entry point, algorithm, max_iterations, '
+    'change_init_values, bootstrap 0/1/2 per step; three fixed opening shapes + random), every step judged; distinct = hash(problem, '
+    'sequence prefix)'
 )
 ASSUMPTIONS = [
     'numpy float64 closed forms of the logit / normal log likelihood and of their gradient, Hessian and BHHH '
@@ -621,11 +632,17 @@ def _judge(rec, ctx, bg, formulas, made, res, calls, algo, mode, step):
 
     # ---- (2) final vs initial log likelihood --------------------------------------------------
     rec.ev()
+    # a start outside the declared bounds (only seen when the saved-iteration file of an earlier run with a bound-ignoring
+    # algorithm is loaded) is outside the quantifier: no feasible point need be as good as an infeasible start
+    xs = np.array([startd[k] for k in free], dtype=float)
+    infeasible_start = bool(bounded_algo and (np.any(xs < lo - 1e-12) or np.any(xs > hi + 1e-12)))
+    if infeasible_start:
+        rec.c('runs_started_outside_the_declared_bounds')
     if mode == 'estimate':
         if d.initLogLike is None or not close(d.initLogLike, ll_start, 1e-9, 1e-9):
             viol('initloglike-differs-from-likelihood-at-start',
                  f'initLogLike={d.initLogLike!r} but the likelihood at the point the algorithm was started from ({startd}) is {ll_start!r}')
-        elif d.logLike < d.initLogLike - 1e-9 * max(1.0, abs(d.initLogLike)):
+        elif not infeasible_start and d.logLike < d.initLogLike - 1e-9 * max(1.0, abs(d.initLogLike)):
             viol('final-loglike-below-initial', f'logLike={d.logLike!r} < initLogLike={d.initLogLike!r}')
     else:
         rec.c('quick_estimate_initloglike_' + ('none' if d.initLogLike is None else 'given'))
@@ -633,7 +650,7 @@ def _judge(rec, ctx, bg, formulas, made, res, calls, algo, mode, step):
             # quick_estimate documents that it skips the initial log likelihood; a number that is reported must still be right
             viol('quick_estimate-reports-initloglike-of-another-start',
                  f'initLogLike={d.initLogLike!r} but the likelihood at the point the algorithm was started from ({startd}) is {ll_start!r}')
-    if d.logLike < ll_start - 1e-9 * max(1.0, abs(ll_start)):
+    if not infeasible_start and d.logLike < ll_start - 1e-9 * max(1.0, abs(ll_start)):
         viol('final-loglike-below-likelihood-at-start', f'logLike={d.logLike!r} < likelihood at the starting point {ll_start!r}')
 
     # ---- (3) reported value is the likelihood at the returned estimates ---------------------------
